@@ -99,3 +99,6 @@ pub open spec fn seg_loaded_facts(s: &Segment) -> bool {
 pub open spec fn disk_next(last: &Segment) -> int {
     if last.size_bytes > 0 { last.current_offset + 1 } else { last.start_offset as int }
 }
+
+// the message count a loaded segment reports (Segment::get_messages_count)
+pub open spec fn loaded_count(s: &Segment) -> int { if s.size_bytes == 0 { 0 } else { s.current_offset - s.start_offset + 1 } }
